@@ -169,13 +169,20 @@ func (c *ChunkBuffer) ChunkedString(level, offset int) string {
 		// prefix operator
 		case Prefix:
 			if next := c.nextChunk(); next != nil {
-				buf.WriteString(c.chunkString(state, chunk.buffer+next.buffer))
+				if next.Type == Group {
+					// prefix operator on a group like !(a && b)
+					if inner := c.nextChunk(); inner != nil {
+						buf.WriteString(c.chunkGroupOperator(state, chunk.buffer, inner))
+					}
+				} else {
+					buf.WriteString(c.chunkString(state, chunk.buffer+next.buffer))
+				}
 			}
 		// group operator
 		case Group:
 			// If group operator, inside expressions should be printed on the same line
 			if next := c.nextChunk(); next != nil {
-				buf.WriteString(c.chunkGroupOperator(state, next))
+				buf.WriteString(c.chunkGroupOperator(state, "", next))
 			}
 		// infix operator
 		case Infix:
@@ -234,6 +241,11 @@ OUT:
 		}
 		break
 	}
+	// The right operand starts with a prefix operator or a group, they are chunked on their own
+	// (combining only "(" here would lose the closing parenthesis)
+	if peek.Type != Token {
+		return ""
+	}
 	// Finally, add token buffer
 	expr.WriteString(" " + peek.buffer)
 
@@ -271,27 +283,49 @@ func (c *ChunkBuffer) chunkLineComment(state *ChunkState, chunk *Chunk) string {
 	return buf.String()
 }
 
-// chunkGroupOperator() returns chunk group expression string
-func (c *ChunkBuffer) chunkGroupOperator(state *ChunkState, chunk *Chunk) string {
-	expr := chunk.buffer
+// chunkGroupOperator() returns chunk group expression string.
+// The group may be prefixed by an operator and may contain nested groups,
+// it is closed by the parenthesis that matches the opening one.
+func (c *ChunkBuffer) chunkGroupOperator(state *ChunkState, prefix string, chunk *Chunk) string {
+	expr := prefix + "("
+	depth := 0
+	glue := true // no whitespace before the next chunk (after "(" or a prefix operator)
 
-	for {
-		next := c.nextChunk()
-		if next == nil {
-			return c.chunkString(state, "("+expr+")")
-		}
-
+	for next := chunk; next != nil; next = c.nextChunk() {
 		switch {
 		case next.isLineComment():
+			if !glue {
+				expr += " "
+			}
 			expr += next.buffer
 			expr += c.nextLine(state)
 			state.reset()
-		case next.buffer == ")":
-			return c.chunkString(state, "("+expr+")")
+			glue = true
+		case next.Type == Group && next.buffer == ")":
+			expr += ")"
+			if depth == 0 {
+				return c.chunkString(state, expr)
+			}
+			depth--
+			glue = false
+		case next.Type == Group || next.Type == Prefix:
+			if !glue {
+				expr += " "
+			}
+			expr += next.buffer
+			if next.Type == Group {
+				depth++
+			}
+			glue = true
 		default:
-			expr += " " + next.buffer
+			if !glue {
+				expr += " "
+			}
+			expr += next.buffer
+			glue = false
 		}
 	}
+	return c.chunkString(state, expr+")")
 }
 
 // chunkString() returns chunked string
